@@ -30,7 +30,7 @@ THEOREMS = [
 ]
 RULE = ("texts with code points of every UTF-8/UTF-16 length placed at every offset around the chunk boundary x 5 encodings x "
         "BOM on/off x 3 target widths x N in {32,36,64,256} x truncation points x both policies, through CEncodedStreamReader; "
-        "CEncodedStreamWriter on multi-part texts; DetectEncoding on short inputs; non-trivial = stream longer than one chunk, "
+        "CEncodedStreamWriter on multi-part texts; DetectEncoding on short inputs (memory) and on streams already advanced past a preamble (position left behind); non-trivial = stream longer than one chunk, "
         "or truncated, or multi-unit scalars present; distinct = distinct op lines")
 EXHAUSTIVE = {"quick": False, "thorough": False}
 ASSUMPTIONS = ["std::istringstream delivers min(n, available) bytes per read and sets eofbit only on a short read",
@@ -90,6 +90,15 @@ def gen(tier, rng, boost=1):
                 for n in NS:
                     ops.append(read_op(rng, ty, bom, t, n=n))
     ops.append("utf.read 32 8 skip 3f utf8 -")
+    # the istream overload of DetectEncoding on a stream that the caller has already advanced (a consumed preamble): the stream must be
+    # left behind the BOM / at the position where detection started, RELATIVE to that position
+    for ty in TYPES:
+        for t in ([0x41], [0x41, 0x42, 0x43, 0x44, 0x45], [0x7A, 0xE9, 0x31], [0x31, 0x10000], [], [0x41] * 70, [0x20AC] * 200):
+            for bom in (0, 1):
+                bs = (BOMS[ty] if bom else []) + to_bytes(ty, encs(WIDTH[ty], t))
+                for pre in (0, 1, 3, 4, 127, 128, 300):
+                    for skip in (0, 1):
+                        ops.append(f"utf.detects {pre} {skip} {hexb(bs)}")
     # BOM-less detection: ASCII first character followed by every kind of second character (control characters, Latin-1, BMP, supplementary):
     # the zero-byte pattern analysis must not confuse UTF-16 with UTF-32 or UTF-8
     seconds = [1, 2, 9, 0x0A, 0x0D, 0x0F, 0x10, 0x11, 0x1F, 0x20, 0x7F, 0x80, 0xFF, 0x100, 0x101, 0x7FF, 0x800, 0xFFFD, 0xFFFF, 0x10000, 0x10001, 0x10FFFF]
